@@ -127,6 +127,16 @@ CHECKS = {
                      "judged: dial required / forbidden, number of live self-initiated sockets.",
                 ref="4 C12", note=NODE_NOTE + "; a socket whose connect() was refused synchronously is not a "
                 "connection."),
+    "C13": dict(cat="exploration", tech="lockstep node harness; invariants of the statement evaluated on snapshots of "
+                "the node's public tables against harness ground truth after every step",
+                text="Exhaustive action sequences to depth 3 (thorough 4) and random walks to depth 12 over 15 actions "
+                     "(inbound connections incl. a second one of a connected peer, CER/CEA of every outcome, DPR, peer "
+                     "gone, socket error, CE and watchdog time-outs, node-initiated close, requests) on 3 peers (one "
+                     "dialled) and 2 applications from 3 start situations; after each step: Peer.connection vs live "
+                     "connections, closed connections absent from connections / peer_sockets / half-ready table and "
+                     "their sockets closed, disconnect reason and time, application readiness.",
+                ref="4 C13", note=NODE_NOTE + "; ownership of an inbound connection starts when its 2001 CEA is "
+                "seen on the wire."),
 }
 
 NOT_YET = "check not built yet in this round (planned in DESIGN.md section 4); no claim is made"
